@@ -7,7 +7,7 @@
 (* rest of the trace is still examined.  The trace is accepted iff no      *)
 (* MISMATCH line was printed and every line was consumed (postcondition).  *)
 (***************************************************************************)
-EXTENDS UintMath, Json, IOUtils, TLC
+EXTENDS Kernels, Json, IOUtils, TLC
 
 Rec == ndJsonDeserialize(IOEnv.TRACE)
 
@@ -20,6 +20,7 @@ Check(e) ==
          [] e.g = "conv"  -> CheckConv(e)
          [] e.g = "bytes" -> CheckBytes(e)
          [] e.g = "math"  -> CheckMath(e)
+         [] e.g = "kern"  -> CheckKern(e)
          [] OTHER -> [unknown_group |-> FALSE]
 
 Fails(c) == {f \in DOMAIN c : ~c[f]}
